@@ -1,4 +1,5 @@
 import OpenHTF.Proofs.Lemmas.Exec
+import OpenHTF.Proofs.Lemmas.ExecGrow
 /-
 C05 — phase result → outcome mapping, repeat limit, run_if. For every behaviour oracle, every
 combination of options, every position (in/out of subtest) and every executor state.
@@ -81,6 +82,28 @@ theorem c05_runif_false_no_body_no_record (cfg : Cfg) (p : Phase) (sub : Option 
     r.1.phases = st.phases ∧ r.1.bodyCalls = st.bodyCalls ∧ r.2 = .pr .skip ∧
     r.1.events = st.events ++ [.runIf p.id (count st.runIfCalls p.id)] := by
   simp [executePhaseOnce, hri, hf]
+
+/-- ... for the whole invocation loop, whatever the options (force_repeat, repeat_on_measurement_fail with a FAIL record
+    of an EARLIER phase in last position, ...): one false run_if ends the loop - it is evaluated once, the body is
+    never invoked, no record is written and the executor sees SKIP. (False on the tree before the `fix:` commit
+    d4399cb4: there the loop went on, re-evaluated run_if and could run the body.) -/
+theorem c05_runif_false_ends_the_loop (cfg : Cfg) (hc : 0 < cfg.defaultRepeatLimit) (p : Phase) (sub : Option Nat) (st : St)
+    (f : Nat → Option Bool) (hri : p.opts.runIf = some f) (hf : f (count st.runIfCalls p.id) = some false) :
+    let r := executePhase cfg p sub st
+    r.1.phases = st.phases ∧ r.1.bodyCalls = st.bodyCalls ∧ r.1.runIfCalls = st.runIfCalls ++ [p.id] ∧ r.2 = .pr .skip := by
+  obtain ⟨k, hk⟩ : ∃ k, repeatLimit cfg p.opts = k + 1 := ⟨repeatLimit cfg p.opts - 1, by have := repeatLimit_pos cfg p.opts hc; omega⟩
+  simp only [executePhase, hk, executePhaseLoop]
+  have h1 := c05_runif_false_no_body_no_record cfg p sub (decide (1 ≥ k + 1)) st f hri hf
+  simp only at h1
+  have hlen : ¬ (st.phases.length < (executePhaseOnce cfg p sub (decide (1 ≥ k + 1)) st).1.phases.length) := by
+    rw [h1.1]; omega
+  simp only [hlen, decide_false, Bool.false_and, Bool.false_eq_true, if_false]
+  refine ⟨h1.1, h1.2.1, ?_, h1.2.2.1⟩
+  simp [executePhaseOnce, hri, hf]
+
+/-- non-vacuity of the above: force_repeat, run_if false once and true afterwards - evaluated once, nothing run -/
+example : (let p : Phase := { id := 7, opts := { forceRepeat := true, runIf := some (fun k => some (decide (k ≥ 1))) }, beh := fun _ => { raw := .ret .cont } }
+    ((executePhase {} p none {}).1.runIfCalls, (executePhase {} p none {}).1.bodyCalls)) = ([7], []) := by decide
 
 /-- non-vacuity: a phase that REPEATs twice and then passes is invoked three times with the default limit -/
 example : ((executePhase {} { id := 7, beh := fun k => if k < 2 then { raw := .ret .rep } else { raw := .ret .cont } } none {}).1.phases.map
